@@ -25,10 +25,11 @@ def clean():
 
 
 def main():
-    dirs = [Path(a) for a in sys.argv[1:]] or sorted(Path("/tmp/mut/out").glob("C*/m*"))
+    prefix = next((a.split("=", 1)[1] for a in sys.argv[1:] if a.startswith("--prefix=")), "")
+    dirs = [Path(a) for a in sys.argv[1:] if not a.startswith("--")] or sorted(Path("/tmp/mut/out").glob("C*/m*"))
     for d in dirs:
         pid = d.parent.name
-        sid = f"{pid}-{d.name}"
+        sid = f"{pid}-{prefix}{d.name}"
         patch = d / "patch.ported.diff" if (d / "patch.ported.diff").exists() else d / "patch.diff"
         clean()
         ok = sh(f"git -C {REPO} apply {patch}").returncode == 0
